@@ -72,4 +72,10 @@ class WithChoices:
     )
 
 
-PLACEMENTS = {"Single": Single, "Many": Many, "Mixed": Mixed, "Local": Local, "Other": Other, "Target": Target, "Typed": Typed, "Deep": Deep, "WithChoices": WithChoices}
+@dataclass
+class TwoWild:  # two namespace-restricted wildcards: the same local name may reach each of them
+    first: List[object] = field(default_factory=list, metadata={"type": "Wildcard", "namespace": P})
+    second: List[object] = field(default_factory=list, metadata={"type": "Wildcard", "namespace": "##local"})
+
+
+PLACEMENTS = {"Single": Single, "Many": Many, "Mixed": Mixed, "Local": Local, "Other": Other, "Target": Target, "Typed": Typed, "Deep": Deep, "WithChoices": WithChoices, "TwoWild": TwoWild}
